@@ -54,6 +54,73 @@ ASSUMPTIONS = [
 ACOS08 = math.degrees(math.acos(0.8))     # 36.8698976...
 TOL_DOT = 1e-9
 
+# The border walk of the unchanged library is only right with config.sort_neighborhoods = True (finding reported with
+# scratch/fixes/C15-3-border-walk-follows-border-edges.diff). Border cases draw the switch; it is only applied (and the same oracles
+# asserted with unsorted neighbourhoods) once this constant is set to True, i.e. once that fix is in /repo.
+UNSORTED_BORDER_ASSERTED = __import__("os").environ.get("C15_ASSERT_UNSORTED_BORDER", "0") == "1"     # default: not asserted
+
+CFG_KEYS = ("sort_neighborhoods", "display_duplicate_attribute_warning", "export_edges_in_obj", "complete_faces_from_cells",
+            "complete_edges_from_faces")
+
+
+@st.composite
+def config_draw(draw):
+    """library-wide switches of mouette/config.py. complete_edges_from_faces stays on (without it a surface has no edge set at all)"""
+    return {"sort_neighborhoods": draw(st.sampled_from([True, True, True, False])),
+            "display_duplicate_attribute_warning": draw(st.booleans()),
+            "export_edges_in_obj": draw(st.booleans()), "complete_faces_from_cells": draw(st.booleans())}
+
+
+def apply_config(M, cfg, ctx, allow_unsorted):
+    want = {"sort_neighborhoods": True, "display_duplicate_attribute_warning": False, "export_edges_in_obj": True,
+            "complete_faces_from_cells": True, "complete_edges_from_faces": True}
+    for k, v in (cfg or {}).items():
+        want[k] = bool(v)
+    if not allow_unsorted:
+        want["sort_neighborhoods"] = True
+    for k, v in want.items():
+        setattr(M.config, k, v)
+    ctx.label("cfg:sort=" + str(want["sort_neighborhoods"]), "cfg:dupwarn=" + str(want["display_duplicate_attribute_warning"]))
+    return want
+
+
+def check_config(M, want, ctx, when):
+    got = {k: getattr(M.config, k) for k in want}
+    ctx.check(got == want, "state:config", f"{when}: library-wide switches changed from {want} to {got}")
+
+
+FFORMS = ["list", "list", "tuple", "np_int64", "np_int32", "np_int16", "np_uint8"]
+
+
+def build_mesh(M, V, F, E=None, vform="float", fform="list"):
+    """vertices as python floats / python ints / numpy int64, float64, float32 rows; faces and declared edges as lists, tuples or
+    numpy rows of a (possibly narrow) integer dtype"""
+    from mouette.mesh.mesh_data import RawMeshData
+    raw = RawMeshData()
+    if vform == "int":
+        raw.vertices += [[int(x) for x in v] for v in V]
+    elif vform == "npint":
+        raw.vertices += [np.array(v, dtype=np.int64) for v in V]
+    elif vform == "npfloat":
+        raw.vertices += [np.array(v, dtype=float) for v in V]
+    elif vform == "npfloat32":
+        raw.vertices += [np.array(v, dtype=np.float32) for v in V]
+    else:
+        raw.vertices += [[float(x) for x in v] for v in V]
+    if fform.startswith("np_"):
+        dt = {"np_int64": np.int64, "np_int32": np.int32, "np_int16": np.int16, "np_uint8": np.uint8}[fform]
+        if len(V) > np.iinfo(dt).max:
+            dt = np.int32
+        conv = lambda r: np.array(r, dtype=dt)
+    elif fform == "tuple":
+        conv = lambda r: tuple(int(x) for x in r)
+    else:
+        conv = lambda r: [int(x) for x in r]
+    if E:
+        raw.edges += [conv(e) if fform.startswith("np_") else tuple(int(x) for x in e) for e in E]
+    raw.faces += [conv(f) for f in F]
+    return M.mesh.SurfaceMesh(raw)
+
 
 # ============================================================================================ border: generators
 
@@ -123,7 +190,8 @@ def border_case(draw, big=False):
     if not _valid_bordered(V, F):
         raise AssertionError("generator produced an invalid surface")
     ops = draw(st.lists(st.tuples(st.sampled_from(SEQ_OPS), st.integers(0, 10 ** 4)).map(list), min_size=3, max_size=10))
-    return {"V": V, "F": F, "tags": tags, "s0": draw(st.integers(0, 10 ** 4)), "probe": draw(st.integers(0, 10 ** 4)), "ops": ops}
+    return {"V": V, "F": F, "tags": tags, "s0": draw(st.integers(0, 10 ** 4)), "probe": draw(st.integers(0, 10 ** 4)), "ops": ops,
+            "cfg": draw(config_draw()), "fform": draw(st.sampled_from(FFORMS))}
 
 
 # around / above 2^10..2^16 and 10^3, 10^4; the two largest are rare (10-14 s per case)
@@ -160,7 +228,8 @@ def border_huge_case(draw):
     F = [list(map(int, f)) for f in F]
     ops = draw(st.lists(st.tuples(st.sampled_from(["all", "boundary", "cycle", "cycle_default", "detector"]), st.integers(0, 10 ** 6)).map(list),
                         min_size=2, max_size=4))
-    return {"V": V, "F": F, "tags": tags, "starts": [draw(st.integers(0, 10 ** 6)) for _ in range(3)], "ops": ops}
+    return {"V": V, "F": F, "tags": tags, "starts": [draw(st.integers(0, 10 ** 6)) for _ in range(3)], "ops": ops,
+            "cfg": draw(config_draw()), "fform": draw(st.sampled_from(FFORMS))}
 
 
 # ============================================================================================ border: oracle
@@ -379,7 +448,7 @@ def border_sequence(ctx, M, m, B, ops, label):
         if op == "cycle":
             if B.bverts:
                 s = B.bverts[a % len(B.bverts)]
-                ok, r = ctx.call("cycle", P.extract_border_cycle, m, np.int64(s) if a % 3 == 0 else s)
+                ok, r = ctx.call("cycle", P.extract_border_cycle, m, [np.int64, np.int32, np.uint32, np.intp][(a // 3) % 4](s) if a % 3 == 0 else s)
                 if ok:
                     check_cycle(ctx, r, s, B.loops, B.loop_of, B.bedges, B.eid, what + f" extract_border_cycle(m,{s})")
                     scribble(r)
@@ -462,7 +531,10 @@ def fn_border(case, ctx):
         if later and bverts:
             ctx.label(f"seq:{first}-then-extraction")
     ctx.nontrivial(len(loops) >= 2)
-    M.config.sort_neighborhoods = True
+    want = apply_config(M, case.get("cfg"), ctx, UNSORTED_BORDER_ASSERTED)
+    fform = case.get("fform", "list")
+    ctx.label("fform=" + fform)
+    surface_from = lambda V, F: build_mesh(M, V, F, None, "float", fform)
     P = M.processing
 
     # --- A. every border vertex as starting point (drawn one first, on a fresh mesh)
@@ -508,6 +580,7 @@ def fn_border(case, ctx):
     # --- D. generated order of calls on one mesh object
     if ops:
         border_sequence(ctx, M, surface_from(V, F), B, ops, "sequence on one mesh:")
+    check_config(M, want, ctx, "after the border calls")
 
 
 def fn_border_huge(case, ctx):
@@ -521,7 +594,10 @@ def fn_border_huge(case, ctx):
                                 ">10001" if longest > 10001 else ">8192" if longest > 8192 else ">4096" if longest > 4096 else
                                 ">2048" if longest > 2048 else ">1024"), f"loops={len(B.loops)}")
     ctx.nontrivial(longest > 1000)
-    M.config.sort_neighborhoods = True
+    want = apply_config(M, case.get("cfg"), ctx, UNSORTED_BORDER_ASSERTED)
+    fform = case.get("fform", "list")
+    ctx.label("fform=" + fform)
+    surface_from = lambda V, F: build_mesh(M, V, F, None, "float", fform)
     P = M.processing
     m = surface_from(V, F)
     medges = [tuple(ints(e)) for e in m.edges]
@@ -542,6 +618,7 @@ def fn_border_huge(case, ctx):
     if ok:
         check_boundary(ctx, M, r, B, f"extract_boundary_of_surface(fresh mesh) [longest loop {longest}]")
     border_sequence(ctx, M, surface_from(V, F), B, [tuple(o) for o in case["ops"]], "sequence on one mesh:")
+    check_config(M, want, ctx, "after the border calls")
 
 
 # ============================================================================================ features: generators
@@ -711,12 +788,15 @@ def feature_case(draw, big=False, huge=False):
     vform = "float"
     if fam == "polycube":
         V, F, tags = draw(polycube(big))
-        vform = draw(st.sampled_from(["int", "npint", "float", "npfloat", "moved"]))
+        vform = draw(st.sampled_from(["int", "npint", "float", "npfloat", "npfloat32", "moved", "moved"]))
         if vform == "moved":
             vform = "float"
             sc = draw(st.sampled_from([1e-6, 1e-3, 1.0, 1e3, 1e6]))
             V = [[0.0 if abs(x) < 1e-12 * sc else float(x) for x in v] for v in G.rigid((np.array(V) * sc).tolist(), draw(st.integers(0, 10 ** 6)))]
-            tags += [f"scale={sc:g}", "rigid=True"]
+            off = draw(st.sampled_from([0.0, 0.0, 1e3, 1e6]))
+            if off:
+                V = (np.array(V) + off * sc * np.array([0.6, -0.48, 0.64])).tolist()
+            tags += [f"scale={sc:g}", "rigid=True", f"offset={off:g}"]
         if draw(st.booleans()):
             V, F, _ = G.relabel(V, F, draw(st.integers(0, 10000)), reverse=False)
             tags.append("relabelled")
@@ -760,7 +840,11 @@ def feature_case(draw, big=False, huge=False):
         mot = draw(st.booleans())
         A = np.array(V) * sc
         V = G.rigid(A.tolist(), draw(st.integers(0, 10 ** 6))) if mot else A.tolist()
-        tags += [f"scale={sc:g}", f"rigid={mot}"]
+        # far from the origin compared with the element size (edge lengths are 0.6..2 x sc)
+        off = draw(st.sampled_from([0.0, 0.0, 0.0, 1e3, 1e6]))
+        if off:
+            V = (np.array(V) + off * sc * np.array([0.6, -0.48, 0.64])).tolist()
+        tags += [f"scale={sc:g}", f"rigid={mot}", f"offset={off:g}"]
         if draw(st.booleans()):
             V, F, _ = G.relabel(V, F, draw(st.integers(0, 10000)), reverse=draw(st.booleans()))
             tags.append("relabelled")
@@ -778,13 +862,15 @@ def feature_case(draw, big=False, huge=False):
 
     def opts():
         return {"only_border": draw(st.sampled_from([False] * 5 + [True])), "flag_corners": draw(st.sampled_from([True, True, True, False])),
-                "corner_order": draw(st.sampled_from([1, 2, 3, 4, 4, 4, 5, 6, 8])), "graph": draw(st.booleans()),
+                "corner_order": draw(st.sampled_from([1, 2, 3, 4, 4, 4, 5, 6, 7, 8, 8, 12, 16, 24, 61, 100])), "graph": draw(st.booleans()),
+                "optform": draw(st.sampled_from(["py", "py", "np"])),
                 "via": draw(st.sampled_from(["run", "run", "detect", "call"])), "verbose": draw(st.sampled_from([False] * 4 + [True]))}
     second = draw(st.sampled_from([None, None, None, "same-detector", "moved-same-detector", "moved-new-detector", "other-mesh"]))
     return {"V": V, "F": F, "E": E, "tags": tags, "opts": opts(), "pre_normals": draw(st.sampled_from([False] * 5 + [True])),
             "rerun": opts() if draw(st.sampled_from([False] * 4 + [True])) else None, "vform": vform, "second": second,
             "stretch": [draw(st.sampled_from([0.5, 0.8, 1.0, 1.25, 2.0])) for _ in range(3)],
-            "mix_border": draw(st.sampled_from([False, False, True]))}
+            "mix_border": draw(st.sampled_from([False, False, True])), "cfg": draw(config_draw()), "fform": draw(st.sampled_from(FFORMS)),
+            "after_raise": draw(st.sampled_from([False, False, False, True]))}
 
 
 # ============================================================================================ features: oracle
@@ -819,15 +905,15 @@ def angle_of(dot):
     return math.degrees(math.acos(max(-1.0, min(1.0, dot))))
 
 
-def check_detector(ctx, M, m, det, o, ref, medges, dots, hard, asum, V, fresh, tag):
+def check_detector(ctx, M, m, det, o, ref, medges, dots, hard, asum, V, fresh, tag, tol=TOL_DOT):
     eid = {e: i for i, e in enumerate(medges)}
     border = ref.border_edges()
     must, may = set(border), set(border)
     if not o["only_border"]:
         for e, d in dots.items():
-            if d < 0.5 - TOL_DOT or (e in hard and d < 0.8 - TOL_DOT):
+            if d < 0.5 - tol or (e in hard and d < 0.8 - tol):
                 must.add(e)
-            if d < 0.5 + TOL_DOT or (e in hard and d < 0.8 + TOL_DOT):
+            if d < 0.5 + tol or (e in hard and d < 0.8 + tol):
                 may.add(e)
     fe = det.feature_edges
     if not ctx.check(isinstance(fe, set) and all(isinstance(e, (int, np.integer)) and 0 <= e < len(medges) for e in fe), "feat:edges-type",
@@ -929,26 +1015,12 @@ def check_detector(ctx, M, m, det, o, ref, medges, dots, hard, asum, V, fresh, t
 
 
 def make_detector(M, o):
+    if o.get("optform") == "np":     # the option values as numpy scalars
+        return M.processing.FeatureEdgeDetector(only_border=np.bool_(o["only_border"]), flag_corners=np.bool_(o["flag_corners"]),
+                                                corner_order=np.int64(o["corner_order"]), compute_feature_graph=np.bool_(o["graph"]),
+                                                verbose=bool(o.get("verbose", False)))
     return M.processing.FeatureEdgeDetector(only_border=o["only_border"], flag_corners=o["flag_corners"], corner_order=o["corner_order"],
                                             compute_feature_graph=o["graph"], verbose=bool(o.get("verbose", False)))
-
-
-def feature_mesh(M, V, F, E, vform):
-    """vertices handed over as python floats / python ints / numpy int64 rows / numpy float rows"""
-    from mouette.mesh.mesh_data import RawMeshData
-    raw = RawMeshData()
-    if vform == "int":
-        raw.vertices += [[int(x) for x in v] for v in V]
-    elif vform == "npint":
-        raw.vertices += [np.array(v, dtype=np.int64) for v in V]
-    elif vform == "npfloat":
-        raw.vertices += [np.array(v, dtype=float) for v in V]
-    else:
-        raw.vertices += [[float(x) for x in v] for v in V]
-    if E:
-        raw.edges += [tuple(e) for e in E]
-    raw.faces += [list(f) for f in F]
-    return M.mesh.SurfaceMesh(raw)
 
 
 def run_quiet(ctx, sig, det, o, m):
@@ -977,6 +1049,11 @@ def fn_features(case, ctx):
     if len(hard) != len(E) or not hard <= ref.uedges:
         raise AssertionError("invalid declared edges")
     A, N, dots, asum = own_geometry(V, F, ref)
+    # distance from the origin relative to the element size: coordinates carry eps * ratio relative noise (non-planarity of quads)
+    emin = min(float(np.linalg.norm(A[a] - A[b])) for a, b in ref.uedges)
+    ratio = float(np.max(np.abs(A))) / emin
+    tol = TOL_DOT + 2e-15 * ratio
+    ctx.label("far-from-origin:" + (">=1e5" if ratio >= 1e5 else ">=1e2" if ratio >= 1e2 else "no"))
     o = case["opts"]
     # ---- labels
     for t in case.get("tags", []):
@@ -1002,7 +1079,7 @@ def fn_features(case, ctx):
             if dist < 0.15 and (nm == "60" or h):
                 dec = "<1e-3" if dist < 1e-3 else "<1e-2" if dist < 1e-2 else "<0.15"
                 ctx.label(f"near{nm}{'hard' if nm == '37' else ''}:{'above' if a > T else 'below'}:{dec}")
-        if abs(d - 0.5) <= TOL_DOT or (h and abs(d - 0.8) <= TOL_DOT):
+        if abs(d - 0.5) <= tol or (h and abs(d - 0.8) <= tol):
             ctx.label("threshold-exempt-edge")
     bv = ref.border_vertices()
     if any(v not in bv for f in F for v in f):
@@ -1010,9 +1087,10 @@ def fn_features(case, ctx):
     ctx.label("closed" if not bv else "bordered")
     ctx.nontrivial(near)
 
-    M.config.sort_neighborhoods = True
-    vform = case.get("vform", "float")
-    ctx.label("vform=" + vform)
+    want = apply_config(M, case.get("cfg"), ctx, True)
+    vform, fform = case.get("vform", "float"), case.get("fform", "list")
+    ctx.label("vform=" + vform, "fform=" + fform)
+    feature_mesh = lambda M, V, F, E, vform: build_mesh(M, V, F, E, vform, fform)
     m = feature_mesh(M, V, F, E, vform)
     medges = [tuple(ints(e)) for e in m.edges]
     if not ctx.check(set(medges) == ref.uedges and len(set(medges)) == len(medges), "edges", "edge container differs from the sides of the faces"):
@@ -1024,7 +1102,8 @@ def fn_features(case, ctx):
         ctx.label("mix_border")
         B = BorderRef([[float(x) for x in v] for v in V], F)
         B.eid = {e: i for i, e in enumerate(medges)}
-        border_sequence(ctx, M, m, B, [("all", 0), ("boundary", 0)], "before the detector:")
+        if want["sort_neighborhoods"] or UNSORTED_BORDER_ASSERTED:
+            border_sequence(ctx, M, m, B, [("all", 0), ("boundary", 0)], "before the detector:")
     if m.edges.has_attribute("hard_edges"):
         ha = m.edges.get_attribute("hard_edges")
         hs = set(medges[i] for i in range(len(medges)) if bool(ha[i]))
@@ -1037,9 +1116,23 @@ def fn_features(case, ctx):
         if not ok:
             return
     det = make_detector(M, o)
+    if case.get("after_raise"):
+        # a call that raises (a polyline is not an allowed mesh type) must leave the detector and the switches usable
+        ctx.label("after_raise")
+        import io, contextlib
+        try:
+            from mouette.mesh.mesh_data import RawMeshData
+            rp = RawMeshData(); rp.vertices += [[0., 0., 0.], [1., 0., 0.]]; rp.edges += [(0, 1)]
+            with contextlib.redirect_stdout(io.StringIO()):
+                det.run(M.mesh.PolyLine(rp))
+            ctx.check(False, "feat:bad-mesh-type-accepted", "FeatureEdgeDetector.run accepted a PolyLine")
+        except Exception as e:
+            if type(e).__name__ in ("Violation", "Inconclusive", "HarnessError"):
+                raise
+        check_config(M, want, ctx, "after a detector call that raised")
     if not run_quiet(ctx, "run", det, o, m):
         return
-    check_detector(ctx, M, m, det, o, ref, medges, dots, hard, asum, V, True, "run")
+    check_detector(ctx, M, m, det, o, ref, medges, dots, hard, asum, V, True, "run", tol=tol)
     last = (det, o)
 
     def det_snapshot(d):
@@ -1050,7 +1143,7 @@ def fn_features(case, ctx):
         det2 = make_detector(M, o2)
         snap1 = det_snapshot(det)
         if run_quiet(ctx, "rerun", det2, o2, m):
-            check_detector(ctx, M, m, det2, o2, ref, medges, dots, hard, asum, V, False, f"second run (after a run with {o})")
+            check_detector(ctx, M, m, det2, o2, ref, medges, dots, hard, asum, V, False, f"second run (after a run with {o})", tol=tol)
             last = (det2, o2)
             ctx.check(det_snapshot(det) == snap1, "feat:first-detector-changed",
                       f"the containers of the first detector (opts {o}) changed when a second detector (opts {o2}) ran")
@@ -1060,7 +1153,7 @@ def fn_features(case, ctx):
         # the SAME detector object run again on the same mesh: everything is rebuilt, nothing accumulates
         ctx.label("second=same-detector")
         if run_quiet(ctx, "rerun", det, o, m):
-            check_detector(ctx, M, m, det, o, ref, medges, dots, hard, asum, V, False, "same detector object run a second time")
+            check_detector(ctx, M, m, det, o, ref, medges, dots, hard, asum, V, False, "same detector object run a second time", tol=tol)
     elif second == "other-mesh":
         # a second, independent mesh (stretched copy) and detector: right on its own, and the first detector / mesh do not notice
         ctx.label("second=other-mesh")
@@ -1071,7 +1164,7 @@ def fn_features(case, ctx):
         snap1 = det_snapshot(last[0])
         d3 = make_detector(M, o)
         if run_quiet(ctx, "run-other-mesh", d3, o, m2):
-            check_detector(ctx, M, m2, d3, o, ref, [tuple(ints(e)) for e in m2.edges], dots2, hard, asum2, V2, True, "run on a second, independent mesh")
+            check_detector(ctx, M, m2, d3, o, ref, [tuple(ints(e)) for e in m2.edges], dots2, hard, asum2, V2, True, "run on a second, independent mesh", tol=tol)
             ctx.check(det_snapshot(last[0]) == snap1, "feat:first-detector-changed", "the containers of the first detector changed when another detector ran on another mesh")
             fa = m.edges.get_attribute("feature")
             bad = [e for e in range(len(medges)) if bool(fa[e]) != (e in snap1[0])]
@@ -1088,12 +1181,13 @@ def fn_features(case, ctx):
         _, _, dots2, asum2 = own_geometry(V2, F, ref)
         d3, o3 = last if second == "moved-same-detector" else (make_detector(M, o), o)
         if run_quiet(ctx, "rerun-moved", d3, o3, m):
-            check_detector(ctx, M, m, d3, o3, ref, medges, dots2, hard, asum2, V2, False, f"run after moving the vertices of the mesh (stretch {st3.tolist()})")
+            check_detector(ctx, M, m, d3, o3, ref, medges, dots2, hard, asum2, V2, False, f"run after moving the vertices of the mesh (stretch {st3.tolist()})", tol=tol)
         if B is not None:
             B = BorderRef(V2, F)
             B.eid = {e: i for i, e in enumerate(medges)}
-    if B is not None:
+    if B is not None and (want["sort_neighborhoods"] or UNSORTED_BORDER_ASSERTED):
         border_sequence(ctx, M, m, B, [("boundary", 0), ("all", 0), ("cycle_default", 0)], "after the detector:")
+    check_config(M, want, ctx, "after the detector runs")
 
 
 # ============================================================================================ self test
